@@ -217,8 +217,15 @@ fn manifest_table_internal(
 		first = false;
 		path.push(k);
 		match v {
-			Val::Obj(obj) => manifest_table(&obj, path, buf, cur_padding, options)?,
-			Val::Arr(arr) => manifest_table_array(&arr, path, buf, cur_padding, options)?,
+			// Nested tables count against the stack limit, like nested inline values do
+			Val::Obj(obj) => in_description_frame(
+				|| "table manifestification".to_owned(),
+				|| manifest_table(&obj, path, buf, cur_padding, options),
+			)?,
+			Val::Arr(arr) => in_description_frame(
+				|| "table array manifestification".to_owned(),
+				|| manifest_table_array(&arr, path, buf, cur_padding, options),
+			)?,
 			_ => unreachable!("iterating over sections"),
 		}
 		path.pop();
